@@ -384,6 +384,33 @@ pub fn run(ctx: &Ctx) {
         ctx.merge(t);
         ctx.space("two OPT records at every pair of positions among 2..=4 additional records (either may be the one lifted; the rest must stay in wire order)", n2, "complete");
     }
+    {
+        // names that take many decoding steps in owner / question / RDATA position, and the
+        // reference encodings (plain and compressed) of the full size sweep
+        let mut msgs = gen::name_shape_messages(ctx.tier.pick(700usize, 2100usize));
+        let n_shapes = msgs.len();
+        for p in gen::size_sweep_packets() {
+            msgs.push(p.encode(0));
+            msgs.push(p.encode_compressed(0, true));
+        }
+        let chunks: Vec<&[Vec<u8>]> = msgs.chunks(64).collect();
+        par_shards(ctx, &chunks, |ms, t: &mut Tally| {
+            for m in ms.iter() {
+                t.evals += 1;
+                let expect = walk(m).is_ok();
+                let (f, tag, acc) = check_msg(m, expect);
+                if acc {
+                    t.nontrivial += 1;
+                }
+                t.outcome(tag);
+                if !f.is_empty() {
+                    ctx.violations(f);
+                }
+            }
+        });
+        ctx.space("name shapes: owner names of 0..=130 inline labels with and without a closing pointer, a label of every length 1..=63 before a pointer, chains of every length up to 700 (2100 thorough) and 2000/4000/8000 label-less backward pointers reached from an owner, an MX exchange and a following record; all natural RDLENGTHs, acceptance required exactly when the envelope walker succeeds", n_shapes as u64, "complete");
+        ctx.space("size sweep: reference encodings (plain and compressed) of every string length 0..=255, tail length 0..=600, label count 1..=127, label length 1..=63, name length 3..=255, list sizes and 2..400 distinct repeated names", (msgs.len() - n_shapes) as u64, "complete");
+    }
     let fam = family(1, extra);
     ctx.sample(json!({"kind": "msg", "msg": hex(&fam[fam.len() / 2].0), "expect_accept": fam[fam.len() / 2].1}));
     ctx.sample(json!({"kind": "msg", "msg": hex(&fam[fam.len() - 1].0), "expect_accept": fam[fam.len() - 1].1}));
